@@ -82,7 +82,10 @@ def write_order(kind, pattern, new="s"):
             j = 0
             while j < len(rest) and not is_sym(rest[j][1]) and rest[j][1] < 32:
                 j += 1
-            c.append(j > 0)
+            # ... and it overwrites every byte of [0,32) (whatever an older file held there is gone before data is written)
+            c.append(j > 0 and rest[0][1] == 0 and all(not is_sym(x[3]) for x in rest[:j])
+                     and all(rest[i][1] + rest[i][3] == rest[i + 1][1] for i in range(j - 1))
+                     and sum(x[3] for x in rest[:j]) == 32)
             rest = rest[j:]
         for op in rest:
             c.append(eng.compare(ast.GtE(), op[1], 32))
@@ -117,6 +120,13 @@ def replay_order(kind):
             z.writestr(b"world", "b")
         f = f2
     log = f.log
+    if kind == "create":
+        lead, pos = 0, 0
+        while lead < len(log) and log[lead][0] == pos and pos < 32:
+            pos += log[lead][1]
+            lead += 1
+        if pos != 32:
+            return True, "the placeholder written first covers only [0,%d): %s" % (pos, log[:8])
     last_low = max(i for i, (p, n) in enumerate(log) if p < 32)
     first_final = last_low
     while first_final > 0 and log[first_final - 1][0] < 32 and log[first_final - 1][0] + log[first_final - 1][1] == log[first_final][0]:
@@ -201,6 +211,58 @@ def replay_torn(mode, p, vals):
     return (not ok), "torn image accepted: %s" % img.hex()
 
 
+# ---------------------------------------------------------------- 3. crash inside the placeholder write
+def truncated_start(n):
+    r = ObResult(bounds="create session, crash after %d of the 32 placeholder bytes: the file is that short; %s; "
+                        "the real _check_7zfile and SignatureHeader._read on it" % (n, "EVERY content of a file of that length (symbolic bytes)" if n < 32 else "the placeholder itself"))
+    eng = Engine([AI, "py7zr.py7zr"], intmode="bv")
+    eng.overrides[("py7zr.helpers", "calculate_crc32")] = eng.models._crc32
+
+    byts = [eng.sym_int("b%d" % i, 8) for i in range(n)] if n < 32 else []
+
+    def harness(e):
+        sh = e.new(e.cls(AI, "SignatureHeader"))
+        f = SFile()
+        e.method(sh, "_write_skeleton", f)
+        skel = list(f.items)
+        if len(skel) != 32:
+            return dict(accepted=True, short_skeleton=len(skel))
+        img = list(byts) if n < 32 else skel
+        try:
+            ok = e.call_function(e.cls("py7zr.py7zr", "SevenZipFile").find("_check_7zfile")[1], [SFile(list(img))], {})
+            if not e.branch(e.truth(ok)):
+                return dict(rejected="not a 7z file")
+            rd = e.new(e.cls(AI, "SignatureHeader"))
+            e.method(rd, "_read", SFile(list(img)))
+        except ModelRaise as ex:
+            return dict(rejected=ex.name)
+        return dict(accepted=True, size=rd.attrs.get("nextheadersize"))
+
+    def post(o):
+        return "rejected" in o
+
+    decide(eng, harness, post, {"b%d" % i: b for i, b in enumerate(byts)}, r, describe=lambda o: o.get("rejected") or "accepted")
+    _cex(r, "truncated_start", lambda w_: dict(module="vf.props.c14", func="replay_truncated", kwargs=dict(
+        n=n, content=[int(w_.get("b%d" % i, 0)) for i in range(len(byts))])),
+         signature=lambda w_: {"obligation": "truncated_start", "n": n})
+    return r
+
+
+def replay_truncated(n, content=()):
+    import py7zr
+    import py7zr.archiveinfo as ai
+
+    f = io.BytesIO()
+    ai.SignatureHeader()._write_skeleton(f)
+    img = bytes(content) if n < 32 else f.getvalue()
+    try:
+        with py7zr.SevenZipFile(io.BytesIO(img)) as z:
+            names = z.getnames()
+    except Exception as e:  # noqa
+        return False, "rejected: %r" % (e,)
+    return True, "a %d-byte crash remnant of a create session opens as an archive with members %r" % (n, names)
+
+
 def units(tier):
     M = "vf.props.c14"
     us = []
@@ -212,4 +274,6 @@ def units(tier):
     for mode in ("create", "append"):
         for p in range(0, 33):
             us.append(Unit("2.torn_header[%s,p=%d]" % (mode, p), M, "torn_header", dict(mode=mode, p=p), 600))
+    for n in range(0, 33):
+        us.append(Unit("3.truncated_start[%d]" % n, M, "truncated_start", dict(n=n), 600))
     return us
